@@ -133,13 +133,34 @@ Proof.
     rewrite (Z.abs_neq (u - q * v)), (Z.abs_neq u), (Z.abs_eq v) by lia. ring.
 Qed.
 
+(* ---- arithmetic core (over atoms: no Z.abs, no case explosion for lia) --------------------- *)
+
+Lemma le_mul_l t k : 0 <= t -> 1 <= k -> t <= k * t.
+Proof. intros Ht Hk. replace t with (1 * t) at 1 by ring. apply Z.mul_le_mono_nonneg_r; assumption. Qed.
+
+(* from  A*b' + O*b = L  with 1 <= O <= A and b, b' >= 0:  b <= L and b' <= L *)
+Lemma ident_bounds A O b b' L : 0 < O -> O <= A -> 0 <= b -> 0 <= b' -> A * b' + O * b = L ->
+  b <= L /\ b' <= L.
+Proof.
+  intros HO HA Hb Hb' E.
+  pose proof (le_mul_l b O Hb ltac:(lia)) as H1.
+  pose proof (le_mul_l b' A Hb' ltac:(lia)) as H2.
+  assert (H3 : 0 <= A * b') by (apply Z.mul_nonneg_nonneg; lia).
+  assert (H4 : 0 <= O * b) by (apply Z.mul_nonneg_nonneg; lia).
+  clear - H1 H2 H3 H4 E. split; lia.
+Qed.
+
+(* the identity after one step: O*(b + q*b') + r*b' = L *)
+Lemma ident_step A O q r b b' L : A = q * O + r -> A * b' + O * b = L -> O * (b + q * b') + r * b' = L.
+Proof. intros -> <-. ring. Qed.
+
 Lemma ovinv_coeff hi lo s : ovinv hi lo s ->
   Z.abs (cx s) <= lo /\ Z.abs (ox s) <= lo /\ Z.abs (cy s) <= hi /\ Z.abs (oy s) <= hi.
 Proof.
   intros (Po & Ole & Chi & Olo & Sx & Sy & Ix & Iy & _).
-  pose proof (Z.abs_nonneg (cx s)). pose proof (Z.abs_nonneg (ox s)).
-  pose proof (Z.abs_nonneg (cy s)). pose proof (Z.abs_nonneg (oy s)).
-  repeat split; nia.
+  destruct (ident_bounds _ _ _ _ _ Po Ole (Z.abs_nonneg (cx s)) (Z.abs_nonneg (ox s)) Ix) as [B1 B2].
+  destruct (ident_bounds _ _ _ _ _ Po Ole (Z.abs_nonneg (cy s)) (Z.abs_nonneg (oy s)) Iy) as [B3 B4].
+  repeat split; assumption.
 Qed.
 
 Lemma quot_facts a b : 0 < b -> b <= a ->
@@ -150,7 +171,28 @@ Proof.
   pose proof (Z.mod_pos_bound a b Hb) as Hm.
   pose proof (Z.div_mod a b ltac:(lia)) as Hd.
   assert (Hq : 1 <= a / b) by (apply Z.div_le_lower_bound; lia).
-  repeat split; try lia; nia.
+  assert (Hqa : a / b <= a) by (apply Z.div_le_upper_bound; [lia|]; apply le_mul_l; lia).
+  rewrite (Z.mul_comm (a / b) b).
+  clear - Hm Hd Hq Hqa. repeat split; lia.
+Qed.
+
+Lemma abs_q_mul q v : 0 <= q -> Z.abs (q * v) = q * Z.abs v.
+Proof. intros H. rewrite Z.abs_mul, (Z.abs_eq q) by exact H. reflexivity. Qed.
+
+(* the events of one continuing iteration *)
+Lemma cont_events M d q r qx x' qy y' :
+  0 < d <= M -> Z.abs q <= M -> Z.abs r <= M -> Z.abs qx <= M -> Z.abs x' <= M -> Z.abs qy <= M -> Z.abs y' <= M ->
+  trace_in (- M) M [Dvs d; Val q; Dvs d; Val r; Dvs d; Val r; Val qx; Val x'; Val qy; Val y'].
+Proof.
+  intros Hd Hq Hr Hqx Hx Hqy Hy.
+  repeat apply trace_in_cons; try apply trace_in_nil; try (apply dvs_in; exact Hd); apply val_in; assumption.
+Qed.
+
+Lemma break_events M d q r : 0 < d <= M -> Z.abs q <= M -> Z.abs r <= M ->
+  trace_in (- M) M [Dvs d; Val q; Dvs d; Val r].
+Proof.
+  intros Hd Hq Hr.
+  repeat apply trace_in_cons; try apply trace_in_nil; try (apply dvs_in; exact Hd); apply val_in; assumption.
 Qed.
 
 (* one continuing iteration: the invariant is kept, the events are bounded *)
@@ -165,24 +207,37 @@ Proof.
   pose proof I as (Po & Ole & Chi & Olo & Sx & Sy & Ix & Iy & _).
   destruct (quot_facts (ca s) (oa s) Po Ole) as ((Q1 & Qle) & (Rn & Rlt) & Dm).
   set (q := Z.quot (ca s) (oa s)) in *. set (r := Z.rem (ca s) (oa s)) in *.
-  destruct (abs_sub_opp (cx s) (ox s) q Sx ltac:(lia)) as [Ax Sx'].
-  destruct (abs_sub_opp (cy s) (oy s) q Sy ltac:(lia)) as [Ay Sy'].
+  assert (Hq0 : 0 <= q) by (clear - Q1; lia).
+  destruct (abs_sub_opp (cx s) (ox s) q Sx Hq0) as [Ax Sx'].
+  destruct (abs_sub_opp (cy s) (oy s) q Sy Hq0) as [Ay Sy'].
+  pose proof (ident_step _ _ _ _ _ _ _ Dm Ix) as Ix'.
+  pose proof (ident_step _ _ _ _ _ _ _ Dm Iy) as Iy'.
+  rewrite <- Ax in Ix'. rewrite <- Ay in Iy'.
+  assert (Rpos : 0 < r) by (clear - Rn R0; lia).
   assert (I' : ovinv hi lo s1).
   { unfold ovinv. rewrite Hca, Hoa, Hcx, Hox, Hcy, Hoy. fold q r.
-    rewrite Ax, Ay.
-    pose proof (Z.abs_nonneg (cx s)). pose proof (Z.abs_nonneg (ox s)).
-    pose proof (Z.abs_nonneg (cy s)). pose proof (Z.abs_nonneg (oy s)).
-    repeat split; try lia; try nia. }
+    split; [exact Rpos|]. split; [clear - Rlt; lia|]. split; [clear - Olo Hlh; lia|].
+    split; [clear - Rlt Olo; lia|]. split; [exact Sx'|]. split; [exact Sy'|].
+    split; [exact Ix'|]. split; [exact Iy'|]. left. exact Rlt. }
   split; [exact I'|].
-  destruct (ovinv_coeff hi lo s I) as (B1 & B2 & B3 & B4).
-  destruct (ovinv_coeff hi lo s1 I') as (_ & B2' & _ & B4').
-  rewrite Hox in B2'. rewrite Hoy in B4'. fold q in B2', B4'.
-  pose proof (Z.abs_nonneg (cx s)). pose proof (Z.abs_nonneg (ox s)).
-  pose proof (Z.abs_nonneg (cy s)). pose proof (Z.abs_nonneg (oy s)).
-  assert (Qx : Z.abs (q * ox s) <= lo) by (rewrite Z.abs_mul, (Z.abs_eq q) by lia; lia).
-  assert (Qy : Z.abs (q * oy s) <= hi) by (rewrite Z.abs_mul, (Z.abs_eq q) by lia; lia).
-  repeat apply trace_in_cons; try apply trace_in_nil;
-    try (apply dvs_in; lia); apply val_in; try lia.
+  (* bounds of the new coefficients from the new identities, with r >= 1 <= oa *)
+  assert (Hro : r <= oa s) by (clear - Rlt; lia).
+  destruct (ident_bounds _ _ _ _ _ Rpos Hro (Z.abs_nonneg (ox s)) (Z.abs_nonneg (cx s - q * ox s)) Ix') as [_ Bx].
+  destruct (ident_bounds _ _ _ _ _ Rpos Hro (Z.abs_nonneg (oy s)) (Z.abs_nonneg (cy s - q * oy s)) Iy') as [_ By].
+  assert (Qx : Z.abs (q * ox s) <= lo).
+  { rewrite abs_q_mul by exact Hq0. rewrite Ax in Bx. pose proof (Z.abs_nonneg (cx s)) as N.
+    clear - Bx N. lia. }
+  assert (Qy : Z.abs (q * oy s) <= hi).
+  { rewrite abs_q_mul by exact Hq0. rewrite Ay in By. pose proof (Z.abs_nonneg (cy s)) as N.
+    clear - By N. lia. }
+  apply cont_events.
+  - clear - Po Ole Chi HM. lia.
+  - rewrite Z.abs_eq by exact Hq0. clear - Qle Chi HM. lia.
+  - rewrite Z.abs_eq by exact Rn. clear - Rlt Ole Chi HM. lia.
+  - clear - Qx Hlh HM. lia.
+  - clear - Bx Hlh HM. lia.
+  - clear - Qy HM. lia.
+  - clear - By HM. lia.
 Qed.
 
 (* the breaking iteration *)
@@ -201,22 +256,24 @@ Proof.
   destruct (quot_facts (ca s) (oa s) Po Ole) as ((Q1 & Qle) & (Rn & Rlt) & Dm).
   destruct (ovinv_coeff hi lo s I) as (B1 & B2 & B3 & B4).
   split.
-  - repeat apply trace_in_cons; try apply trace_in_nil;
-      try (apply dvs_in; lia); apply val_in; lia.
+  - apply break_events.
+    + clear - Po Ole Chi HM. lia.
+    + rewrite Z.abs_eq by (clear - Q1; lia). clear - Qle Chi HM. lia.
+    + rewrite R0. cbn [Z.abs]. clear - Po Ole Chi HM. lia.
   - split; [exact B2|]. split; [exact B4|].
     destruct D as [D|D]; [left|right; exact D].
     rewrite R0, Z.add_0_r in Dm.
-    pose proof (Z.abs_nonneg (cx s)). pose proof (Z.abs_nonneg (ox s)).
-    pose proof (Z.abs_nonneg (cy s)). pose proof (Z.abs_nonneg (oy s)).
     assert (H2q : 2 <= Z.quot (ca s) (oa s)).
-    { destruct (Z.eq_dec (Z.quot (ca s) (oa s)) 1) as [Q|Q]; [rewrite Q in Dm; lia|lia]. }
+    { destruct (Z.eq_dec (Z.quot (ca s) (oa s)) 1) as [Q|Q]; [rewrite Q in Dm; clear - Dm D; lia|clear - Q Q1; lia]. }
     assert (H2c : 2 <= ca s).
-    { rewrite Dm. replace 2 with (2 * 1) by reflexivity. apply Z.mul_le_mono_nonneg; lia. }
-    assert (0 <= oa s * Z.abs (cx s)) by (apply Z.mul_nonneg_nonneg; lia).
-    assert (0 <= oa s * Z.abs (cy s)) by (apply Z.mul_nonneg_nonneg; lia).
-    assert (2 * Z.abs (ox s) <= ca s * Z.abs (ox s)) by (apply Z.mul_le_mono_nonneg_r; lia).
-    assert (2 * Z.abs (oy s) <= ca s * Z.abs (oy s)) by (apply Z.mul_le_mono_nonneg_r; lia).
-    split; lia.
+    { rewrite Dm. replace 2 with (2 * 1) by reflexivity. apply Z.mul_le_mono_nonneg; clear - H2q Po; lia. }
+    pose proof (Z.abs_nonneg (cx s)) as N1. pose proof (Z.abs_nonneg (ox s)) as N2.
+    pose proof (Z.abs_nonneg (cy s)) as N3. pose proof (Z.abs_nonneg (oy s)) as N4.
+    assert (P1 : 0 <= oa s * Z.abs (cx s)) by (apply Z.mul_nonneg_nonneg; [clear - Po; lia|exact N1]).
+    assert (P2 : 0 <= oa s * Z.abs (cy s)) by (apply Z.mul_nonneg_nonneg; [clear - Po; lia|exact N3]).
+    assert (P3 : 2 * Z.abs (ox s) <= ca s * Z.abs (ox s)) by (apply Z.mul_le_mono_nonneg_r; assumption).
+    assert (P4 : 2 * Z.abs (oy s) <= ca s * Z.abs (oy s)) by (apply Z.mul_le_mono_nonneg_r; assumption).
+    split; [clear - P1 P3 Ix; lia|clear - P2 P4 Iy; lia].
 Qed.
 
 (* the whole loop: termination within the fuel, the model's result, all events bounded *)
@@ -269,6 +326,18 @@ Proof. unfold abs_tr. destruct (Z.ltb_spec a 0); f_equal; try lia. f_equal. f_eq
 
 Lemma half_le u v : 2 * u <= v -> u <= v / 2.
 Proof. intros H. apply Z.div_le_lower_bound; lia. Qed.
+
+Lemma events4 N v1 v2 v3 v4 : Z.abs v1 <= N -> Z.abs v2 <= N -> Z.abs v3 <= N -> Z.abs v4 <= N ->
+  trace_in (- N) N [Val v1; Val v2; Val v3; Val v4].
+Proof.
+  intros H1 H2 H3 H4. repeat apply trace_in_cons; try apply trace_in_nil; apply val_in; assumption.
+Qed.
+
+Lemma events5 N v1 v2 v3 v4 v5 : Z.abs v1 <= N -> Z.abs v2 <= N -> Z.abs v3 <= N -> Z.abs v4 <= N -> Z.abs v5 <= N ->
+  trace_in (- N) N [Val v1; Val v2; Val v3; Val v4; Val v5].
+Proof.
+  intros H1 H2 H3 H4 H5. repeat apply trace_in_cons; try apply trace_in_nil; apply val_in; assumption.
+Qed.
 
 Lemma abs_facts a :
   0 <= Z.abs a /\ (if a <? 0 then - Z.abs a else Z.abs a) = a /\
@@ -347,8 +416,14 @@ Proof.
   destruct Hxy as (Hx & Hy & Hbez & Hprods).
   assert (Hx' : Z.abs (xx * sa) = Z.abs xx) by (rewrite Z.abs_mul, HAu; ring).
   assert (Hy' : Z.abs (yy * sb) = Z.abs yy) by (rewrite Z.abs_mul, HBu; ring).
+  assert (HabsA : Z.abs a = A) by (clear - HA0 Haa; lia).
+  assert (HabsB : Z.abs b = B) by (clear - HB0 Hbb; lia).
   apply trace_in_app.
-  { repeat apply trace_in_cons; try apply trace_in_nil; apply val_in; lia. }
+  { apply events4.
+    - rewrite HAu. clear - HM1 HMN. lia.
+    - rewrite Hx'. clear - Hx HMN. lia.
+    - rewrite HBu. clear - HM1 HMN. lia.
+    - rewrite Hy'. clear - Hy HMN. lia. }
   destruct chk; [|apply trace_in_nil].
   specialize (HNc eq_refl).
   (* the assertion: a*x + b*y = g, |a*x| and |b*y| at most hi*lo/2 (or lo when the loop body never ran) *)
@@ -356,14 +431,20 @@ Proof.
   { replace (a * (xx * sa) + b * (yy * sb)) with (xx * (a * sa) + yy * (b * sb)) by ring.
     rewrite HAs, HBs. symmetry. exact Hbez. }
   assert (Hax : Z.abs (a * (xx * sa)) = A * Z.abs xx).
-  { rewrite Z.abs_mul, Hx'. replace (Z.abs a) with A by (clear - HA0 Haa; lia). reflexivity. }
+  { rewrite Z.abs_mul, Hx', HabsA. reflexivity. }
   assert (Hby : Z.abs (b * (yy * sb)) = B * Z.abs yy).
-  { rewrite Z.abs_mul, Hy'. replace (Z.abs b) with B by (clear - HB0 Hbb; lia). reflexivity. }
+  { rewrite Z.abs_mul, Hy', HabsB. reflexivity. }
   assert (Hfin : A * Z.abs xx <= N /\ B * Z.abs yy <= N).
-  { destruct Hprods as [[P1 P2]|[P1 P2]]; [|lia].
-    rewrite Hprod in P1, P2. apply half_le in P1. apply half_le in P2. lia. }
+  { destruct Hprods as [[P1 P2]|[P1 P2]].
+    - rewrite Hprod in P1, P2. apply half_le in P1. apply half_le in P2. clear - P1 P2 HNc. lia.
+    - clear - P1 P2 HMN. lia. }
   destruct Hfin as [F1 F2].
-  repeat apply trace_in_cons; try apply trace_in_nil; apply val_in; lia.
+  apply events5.
+  - rewrite HabsA. clear - HMa HMN. lia.
+  - rewrite Hax. exact F1.
+  - rewrite HabsB. clear - HMb HMN. lia.
+  - rewrite Hby. exact F2.
+  - rewrite Hsum, Z.abs_eq by (clear - Hgp; lia). clear - Hgle Hle HhM HMN. lia.
 Qed.
 
 (* the traced ext_gcd never runs out of fuel (corollary of erasure and FpProofs.ext_gcd_correct) *)
